@@ -97,6 +97,28 @@ def _(c):
         return spawn_model(it, b2, node)
     c.model = model
 
+    def home_always_overridden(repo):
+        """what the model above assumes, read off the source: the environment override handed to the real _spawn_gpg is one
+        dict that maps GNUPGHOME to self.home from its creation on, is never re-bound, and only gains other keys"""
+        import ast
+        m = repo.modules['gemato.openpgp']
+        cls = next(n for n in m.tree.body if isinstance(n, ast.ClassDef) and n.name == 'IsolatedGPGEnvironment')
+        fn = next(n for n in cls.body if isinstance(n, ast.FunctionDef) and n.name == '_spawn_gpg')
+        binds = [ast.unparse(n) for n in ast.walk(fn) if isinstance(n, (ast.Assign, ast.AugAssign, ast.AnnAssign))
+                 and any(ast.unparse(t) == 'env_override' for t in (n.targets if isinstance(n, ast.Assign) else [n.target]))]
+        item_sets = [ast.unparse(t.slice) for n in ast.walk(fn) if isinstance(n, ast.Assign) for t in n.targets
+                     if isinstance(t, ast.Subscript) and ast.unparse(t.value) == 'env_override']
+        dels = [ast.unparse(n) for n in ast.walk(fn) if isinstance(n, ast.Delete)]
+        calls = [ast.unparse(n) for n in ast.walk(fn) if isinstance(n, ast.Call) and 'env_override' in ast.unparse(n.func)]
+        passes = [ast.unparse(n) for n in ast.walk(fn) if isinstance(n, ast.Assign) and ast.unparse(n.targets[0]) == "kwargs['env_override']"]
+        rets = [ast.unparse(n.value) for n in ast.walk(fn) if isinstance(n, ast.Return) and n.value is not None]
+        first = ast.unparse(next(s for s in fn.body if not (isinstance(s, ast.Expr) and isinstance(s.value, ast.Constant))))
+        ok = binds == ["env_override = {'GNUPGHOME': self.home}"] and first == binds[0] and "'GNUPGHOME'" not in item_sets \
+            and not dels and not calls and passes == ["kwargs['env_override'] = env_override"] \
+            and rets == ['super()._spawn_gpg(*args, **kwargs)']
+        return ok, {'bindings': binds, 'keys added': item_sets, 'method calls on it': calls, 'passed on as': passes, 'returns': rets}
+    c.const('isolated-gpg-always-runs-with-its-own-home', home_always_overridden, props=['C05'])
+
 
 @contract('gemato/openpgp.py', 'SystemGPGEnvironment._parse_gpg_ts', props=['C05'])
 def _(c):
@@ -171,3 +193,32 @@ def _(c):
         roe = raw[1].get('raise_on_error')
         return z3.BoolVal(isinstance(roe, VClass) and roe.name == 'OpenPGPVerificationFailure')
     c.site('gpg-run-raises-on-nonzero-exit', '_spawn_gpg', passes_failure_class)
+
+
+@contract('gemato/openpgp.py', 'SystemGPGEnvironment.clear_sign_file', props=['C14', 'C18'])
+def _(c):
+    c.params(self=GPGEnv, f=FileObjT(), outf=SinkT(), keyid=Opt(Str))
+    c.returns(NoneT)
+    c.only_raises('OpenPGPSigningFailure', 'OpenPGPNoImplementation')
+
+    enc = z3.Function('py_utf8_encode', z3.StringSort(), z3.StringSort())
+
+    def setup(it, fr, bound):
+        it.entry_args['f_content'] = bound['f'].content
+        # A-gpg: what gpg --clearsign prints for UTF-8 input (the text itself, dash-escaped, inside ASCII armor) is UTF-8
+        it.engine.assumed.add('A-gpg: the output of gpg --clearsign for UTF-8 input decodes as UTF-8')
+        dec_ok = z3.Function('py_decode_ok', z3.StringSort(), z3.BoolSort())
+        it.ctx.assume(dec_ok(gpg_out(enc(bound['f'].content.t))))
+    c.setup = setup
+
+    def failure(s):
+        return gpg_exit(enc(s.f_content)) != 0
+    c.exc_ensures('signing-failure-iff-gpg-exits-nonzero', 'OpenPGPSigningFailure', failure, props=['C14'])
+    c.ensures('returns-only-after-gpg-succeeded', lambda s: gpg_exit(enc(s.f_content)) == 0, props=['C14'])
+
+    def passes_failure_class(s, args, kwargs, raw):
+        roe = raw[1].get('raise_on_error')
+        return z3.BoolVal(isinstance(roe, VClass) and roe.name == 'OpenPGPSigningFailure')
+    c.site('gpg-run-raises-the-signing-failure-on-nonzero-exit', '_spawn_gpg', passes_failure_class, props=['C14'])
+
+    c.note('the text handed to gpg is the whole content of f (utf-8), what is written to outf is gpg\'s output: stub-gpg harness (A-gpg)')
